@@ -334,6 +334,17 @@ func execDecReuse(a []string) string {
 }
 
 func init() {
+	// the same with Go's int and uint where the signature has l and L
+	executors["enc.reflectp"] = func(a []string) string {
+		platformInts = true
+		defer func() { platformInts = false }()
+		return execEncReflect(a)
+	}
+	executors["dec.reflectp"] = func(a []string) string {
+		platformInts = true
+		defer func() { platformInts = false }()
+		return execDecReflect(a)
+	}
 	executors["dec.reuse"] = execDecReuse
 	executors["rd.read"] = execRdRead
 	executors["val.read"] = execValRead
@@ -366,7 +377,13 @@ func genGVal(r *Rand, depth int) *gval {
 		letters := "cCwWiIlLbf"
 		c := letters[k]
 		t := &sigT{kind: c}
-		return &gval{kind: string(c), n: genTVal(r, t, 0).n}
+		n := genTVal(r, t, 0).n
+		if c == 'f' && r.Chance(30) {
+			// the bit patterns a conversion to another width would not keep: signalling and quiet NaNs with payloads,
+			// infinities, negative zero, denormals (a float value is its four bytes)
+			n = []uint64{0x7fa00000, 0xffbfffff, 0x7f800001, 0xff800001, 0x7fc00000, 0x7fc12345, 0x7f800000, 0xff800000, 0x80000000, 1, 0x007fffff}[r.Intn(11)]
+		}
+		return &gval{kind: string(c), n: n}
 	case k == 10:
 		return &gval{kind: "s", b: genTVal(r, &sigT{kind: 's'}, 0).s}
 	case k == 11:
@@ -814,6 +831,18 @@ func c03CaseV(r *Rand, o *Out, t *sigT, v *tval) {
 	want := fmt.Sprintf("ok %s rest=%d", renderTValD(t, v), len(tail))
 	if res != want {
 		o.Fail("reflection decoder does not recover the value: "+codecWhy(t), fmt.Sprintf("dec.reflect %s %s => %s (want %s)", sig, hx(enc), res, want))
+	}
+	// 3a. … and the same with Go's own int and uint for the eight-byte integers
+	if strings.ContainsAny(sig, "lL") && !strings.Contains(sig, "<") && r.Chance(60) {
+		res = o.Do("P", "enc.reflectp "+hx([]byte(sig))+" "+v.tokens(), true)
+		if res != "ok "+hx(enc) {
+			o.Fail("reflection encoder differs from the documented layout: int / uint", fmt.Sprintf("enc.reflectp %s %s => %s (want %s)", sig, v.tokens(), res, hx(enc)))
+		}
+		res = o.Do("P", "dec.reflectp "+hx([]byte(sig))+" "+hx(append(append([]byte{}, enc...), tail...)), true)
+		if res != want {
+			o.Fail("reflection decoder does not recover the value: int / uint", fmt.Sprintf("dec.reflectp %s %s => %s (want %s)", sig, hx(enc), res, want))
+		}
+		o.Count("case:platform-int-and-uint")
 	}
 }
 
